@@ -330,14 +330,20 @@ func vfC07CheckInv(rep vfC07Reporter, a *vfC07Node, x *vfC07Str, inv *vfC07Inv) 
 
 // echo round trip: returns ok, the invocation serial that answered
 func vfC07Echo(rep vfC07Reporter, l *vfC07Ledger, x *vfC07Str, nonce string) (bool, int, error) {
+	ok, serial, _, err := vfC07Echo2(rep, l, x, nonce)
+	return ok, serial, err
+}
+
+// vfC07Echo2 also tells whether the write alone went through
+func vfC07Echo2(rep vfC07Reporter, l *vfC07Ledger, x *vfC07Str, nonce string) (bool, int, bool, error) {
 	x.s.SetDeadline(time.Now().Add(30 * time.Second)) // virtual time; never reached when the echo arrives
 	defer x.s.SetDeadline(time.Time{})
 	if _, err := x.s.Write([]byte(nonce + "\n")); err != nil {
-		return false, 0, err
+		return false, 0, false, err
 	}
 	line, err := x.rd.ReadString('\n')
 	if err != nil {
-		return false, 0, err
+		return false, 0, true, err
 	}
 	var serial, hid int
 	var got string
@@ -349,7 +355,7 @@ func vfC07Echo(rep vfC07Reporter, l *vfC07Ledger, x *vfC07Str, nonce string) (bo
 	}
 	if got != nonce {
 		rep("echo-mismatch", "the bytes read back are not the echo of the nonce written on this stream", nonce, line)
-		return true, serial, nil
+		return true, serial, true, nil
 	}
 	owners := 0
 	for _, inv := range l.invsFrom(0) {
@@ -367,7 +373,7 @@ func vfC07Echo(rep vfC07Reporter, l *vfC07Ledger, x *vfC07Str, nonce string) (bo
 	if owners != 1 {
 		rep("echo-misrouted", "the nonce was received by a number of handler invocations different from one", 1, owners)
 	}
-	return true, serial, nil
+	return true, serial, true, nil
 }
 
 // ---------------------------------------------------------------------------------------------
@@ -604,10 +610,13 @@ func (r *vfC07Run) use(op vfh.Op) {
 	n0 := r.l.nInvs()
 	noCommon := !r.l.commonDuring(x.req, x.openSeq, r.l.seq.Load())
 	nonce := fmt.Sprintf("N%d-%d-%d-%d", vfh.Seed(), r.walk, r.step, i)
-	ok, serial, err := vfC07Echo(r.rep, r.l, x, nonce)
+	ok, serial, wrote, err := vfC07Echo2(r.rep, r.l, x, nonce)
 	synctest.Wait()
 	invs := r.l.invsFrom(n0)
 	r.res.Inc("use_"+op.S("res"), 1)
+	if !ok && wrote && first {
+		r.res.Inc("refused_first_use_write_alone_succeeded", 1) // documented behaviour of the lazy client (see assumptions)
+	}
 	if first {
 		r.res.Inc("use_first_"+op.S("res"), 1)
 	}
